@@ -3,6 +3,7 @@
 -/
 import C4E.Vesting
 import C4E.Minter
+import C4E.Distributor
 namespace C4E.Props.C18
 open C4E C4E.Vest
 
@@ -35,6 +36,109 @@ theorem no_event_for_zero (owner : String) (now : Int) (p : Pool) (h : withdrawa
 theorem mint_before_start_zero (p : Minter.Params) (st : Minter.St) (t : Int) (h : t < p.start) :
     Minter.mint p st t = .ok { amount := 0, st := st, hist := [] } := by
   unfold Minter.mint; rw [if_pos h]
+
+/-! ### distributor: a sub-distributor's events add up to its inflow (every denomination) -/
+
+open C4E.Distr C4E.CoinList in
+def dEvAmount : Distr.Event → DecCoins
+  | .distribution _ _ a => a
+  | .burn _ a => a
+
+open C4E.Distr C4E.CoinList in
+/-- what the events of a list report in denomination `d` -/
+def dEvSum (d : String) : List Distr.Event → Int
+  | [] => 0
+  | e :: rest => amountOf (dEvAmount e) d + dEvSum d rest
+
+open C4E.Distr C4E.CoinList
+
+theorem dEvSum_append (d : String) (a b : List Distr.Event) : dEvSum d (a ++ b) = dEvSum d a + dEvSum d b := by
+  induction a with
+  | nil => simp [dEvSum]
+  | cons e rest ih => simp only [List.cons_append, dEvSum, ih]; omega
+
+theorem amountOf_of_isZero (c : CoinList) (d : String) (h : isZero c = true) : amountOf c d = 0 := by
+  induction c with
+  | nil => rfl
+  | cons kv rest ih =>
+    obtain ⟨k, v⟩ := kv
+    unfold isZero at h ih
+    simp only [List.all_cons, Bool.and_eq_true, beq_iff_eq] at h
+    simp only [amountOf, h.1, ih h.2]
+    split <;> rfl
+
+/-- the share loop keeps `remainder + events so far = inflow` in every denomination -/
+theorem distShares_sum (sub : String) (x : DecCoins) (d : String) : ∀ (shs : List Share) (sts : List DState) (dflt : DecCoins)
+    (evs : List Distr.Event) (sts' : List DState) (dflt' : DecCoins) (evs' : List Distr.Event),
+    distShares sub x shs sts dflt evs = .ok (sts', dflt', evs') →
+    amountOf dflt' d + dEvSum d evs' = amountOf dflt d + dEvSum d evs
+  | [], sts, dflt, evs, sts', dflt', evs', h => by
+    simp only [distShares, Outcome.ok.injEq, Prod.mk.injEq] at h
+    obtain ⟨_, h2, h3⟩ := h; subst h2; subst h3; rfl
+  | sh :: rest, sts, dflt, evs, sts', dflt', evs', h => by
+    unfold distShares at h
+    simp only [] at h
+    split at h
+    · cases h
+    · rename_i d1 hsub
+      have hs := amountOf_sub hsub d
+      split at h
+      · rename_i hnz
+        split at h
+        · split at h
+          · rename_i stsA _
+            have := distShares_sum sub x d rest _ _ _ _ _ _ h
+            rw [this, dEvSum_append]
+            simp only [dEvSum, dEvAmount]
+            omega
+          · cases h
+          · cases h
+        · have := distShares_sum sub x d rest _ _ _ _ _ _ h
+          rw [this, dEvSum_append]
+          simp only [dEvSum, dEvAmount]
+          omega
+      · rename_i hz
+        have hz' : isZero (calcPercentage (sh.share.getD 0) x) = true := by simpa using hz
+        have h0 := amountOf_of_isZero _ d hz'
+        have := distShares_sum sub x d rest _ _ _ _ _ _ h
+        rw [this]; omega
+
+/-- **a block's distribution and burn events for a sub-distributor add up to its inflow**, in every
+    denomination, whatever the configuration: named shares (also to MAIN), the burn share and the
+    primary remainder -/
+theorem distribution_events_sum (sts : List DState) (x : DecCoins) (s : SubD) (sts' : List DState) (evs : List Distr.Event)
+    (h : startDistribution sts x s = .ok (sts', evs)) (d : String) :
+    dEvSum d evs = amountOf x d := by
+  unfold startDistribution at h
+  split at h
+  · cases h
+  · cases h
+  · rename_i sts1 dflt1 evs1 hsh
+    have inv := distShares_sum s.name x d s.shares sts x [] sts1 dflt1 evs1 hsh
+    simp only [dEvSum, Int.add_zero] at inv
+    simp only [] at h
+    split at h
+    · cases h
+    · rename_i dflt hsub
+      have hs := amountOf_sub hsub d
+      have hburn : dEvSum d (if (!isZero (calcPercentage (s.burnShare.getD 0) x)) = true then [Distr.Event.burn s.name (calcPercentage (s.burnShare.getD 0) x)] else [])
+          = amountOf (calcPercentage (s.burnShare.getD 0) x) d := by
+        by_cases hz : isZero (calcPercentage (s.burnShare.getD 0) x) = true
+        · simp [hz, dEvSum, amountOf_of_isZero _ d hz]
+        · have : (!isZero (calcPercentage (s.burnShare.getD 0) x)) = true := by simpa using hz
+          simp only [this, if_true, dEvSum, dEvAmount]; omega
+      have key : dEvSum d (evs1 ++ [Distr.Event.distribution s.name (s.name ++ "_primary") dflt] ++
+          (if (!isZero (calcPercentage (s.burnShare.getD 0) x)) = true then [Distr.Event.burn s.name (calcPercentage (s.burnShare.getD 0) x)] else []))
+          = amountOf x d := by
+        rw [dEvSum_append, dEvSum_append, hburn]
+        simp only [dEvSum, dEvAmount]
+        omega
+      split at h
+      · split at h
+        · cases h; exact key
+        · cases h
+        · cases h
+      · cases h; exact key
 
 theorem nonvacuous :
     sumInts (([{ name := "a", vtype := "t", lockStart := 0, lockEnd := 10, initially := 100, withdrawn := 0, sent := 0 },
